@@ -85,6 +85,10 @@ def chunk_routines(job):
 def judge_case(case):
     if case["kind"] == "pair":
         return sweep.judge_c04(sweep.rec_from_case(case), sweep.install_chain_logger())
+    if case["kind"] == "envx":
+        from mc.explore import envx_run
+
+        return envx_run.replay("C04", case)
     if case["kind"] == "routine":
         arg = case["arg"]
         return judge_routine(case["routine"], case["text"], case["bg"], arg, case["target"]) or []
@@ -128,4 +132,7 @@ def run(ctx):
         ctx.skip("routine_" + s, "documented routine not found in optimisation module")
     ctx.sub("search_routines_direct", states=len(sub), transitions=m, evaluations=m, traces=m, distinct_nontrivial=m, exhaustive=True,
             tolerances=TOLS, targets=TARGETS, schedules=SCHEDULES)
+    from mc.explore import envx_run
+
+    envx_run.run(ctx, "C04")
     ctx.sample({"subcheck": "routine", "routine": "multi", "text": list(sub[0][0]), "bg": list(sub[0][1]), "schedule": SCHEDULES[1], "target": 7.0})
